@@ -63,3 +63,97 @@ def replay_send_all_removed(w, rec):
 REPLAYS = {
   'ServerSet._send_all_removed': replay_send_all_removed,
 }
+
+
+# --------------------------------------------------------------------------------------------------------------
+def replay_worker(w, rec):
+  """The real notification worker and children callback on scripted histories: after the dust settles the consumer
+  holds exactly the members present, nobody leaves twice, and a raising callback loses nothing."""
+  import gevent
+  from gevent.queue import Queue
+  from gevent.event import Event
+  from kazoo.exceptions import NoNodeError
+  from scales.loadbalancer import zookeeper as Z
+
+  class M(object):
+    def __init__(self, name):
+      self.name = name
+
+  def mk(raise_on_join=(), slow_read=()):
+    ss = Z.ServerSet.__new__(Z.ServerSet)
+    log = []
+    present = set()
+    held = {}
+    def on_join(m):
+      log.append(('join', m.name))
+      if m.name in raise_on_join:
+        raise RuntimeError('consumer bug')
+      held[m.name] = held.get(m.name, 0) + 1
+    def on_leave(m):
+      log.append(('leave', m.name))
+      held[m.name] = held.get(m.name, 0) - 1
+    gates = dict((n, Event()) for n in slow_read)
+    def factory(node, data):
+      return M(node)
+    def get_info(node):
+      if node in gates:
+        gates[node].wait()
+      if node not in present:
+        raise NoNodeError()
+      return b'{}'
+    class _L(object):
+      def __getattr__(self, n):
+        return lambda *a, **k: None
+    ss._log = _L()
+    ss._zk_path = '/p'; ss._zk = None
+    ss._nodes = set(); ss._members = {}
+    ss._on_join = on_join; ss._on_leave = on_leave
+    ss._notification_queue = Queue(0)
+    ss._watching = True
+    ss._cb_blocker = Z.ServerSet._CallbackBlocker()
+    ss._member_filter = lambda n: True
+    ss._member_factory = factory
+    ss._get_info = get_info
+    ss._running = True
+    ss._worker = gevent.spawn(ss._notification_worker)
+    return ss, log, present, held, gates
+
+  def settle():
+    for _ in range(20):
+      gevent.sleep(0)
+
+  bad = []
+  # (1) a join callback raises for b; later b is deleted: its leave must still be delivered
+  ss, log, present, held, gates = mk(raise_on_join=('b',))
+  present.update(['a', 'b', 'c']); ss._on_set_changed(sorted(present)); settle()
+  present.discard('b'); ss._on_set_changed(sorted(present)); settle()
+  if ('leave', 'b') not in log:
+    bad.append('join callback raised for b, then b was deleted: no leave for b was delivered (log %r)' % (log,))
+  # (2) a child deleted while its batch is still being read: join then leave, or neither -- never a join without the leave
+  ss, log, present, held, gates = mk(slow_read=('a',))
+  present.update(['a', 'b']); ss._on_set_changed(sorted(present)); settle()          # worker parked reading a
+  present.discard('a'); ss._on_set_changed(sorted(present)); settle()                 # a deleted meanwhile
+  gates['a'].set(); settle()
+  finally_held = sorted(n for n, c in held.items() if c > 0)
+  if finally_held != sorted(present):
+    bad.append('child deleted while its join was in progress: consumer ends holding %r, present are %r (log %r)' % (finally_held, sorted(present), log))
+  # (3) the watched path is deleted while the worker is parked in a read: nobody leaves twice
+  ss, log, present, held, gates = mk(slow_read=('c',))
+  present.update(['a', 'b']); ss._on_set_changed(sorted(present)); settle()
+  present.discard('b'); present.add('c'); ss._on_set_changed(sorted(present)); settle()   # one item: new c, removed b; parked reading c
+  present.clear(); ss._send_all_removed(); settle()
+  gates['c'].set(); settle()
+  leaves = [n for k, n in log if k == 'leave']
+  twice = sorted(set(n for n in leaves if leaves.count(n) > 1))
+  if twice:
+    bad.append('path deleted while the worker was reading: %r reported as leaving twice (log %r)' % (twice, log))
+  for s_ in (ss,):
+    try:
+      s_._worker.kill(block=False)
+    except Exception:
+      pass
+  return bool(bad), '\n'.join(bad) or 'consumer view consistent on the scripted histories'
+
+
+REPLAYS['ServerSet._notification_worker'] = replay_worker
+REPLAYS['ServerSet._on_set_changed'] = replay_worker
